@@ -19,13 +19,13 @@ Driver for property C07: runs the client authenticator model on one scenario per
      <user hex> <dir> <rnd hex> <nfiles> (<ctx> <content>)* <cookieCtx hex> <cookieId hex> <cookie hex> <challenge hex>
      -> <transcript: C:<hex> / S:<hex> …> | client=<0|1> server=<state> disc=<0|1>
 
-  hs2 <unix 0|1> <guid hex> <hello hex> <user hex> <clientHome hex> <initStat mode:owned> <root 0|1> <euid>
+  hs2 <unix 0|1> <guid hex> <hello hex> <user hex> <clientHome hex> <initStat mode:owned> <bus euid> <client euid>
       <creds;passwd;dirs;files;now;ctx>   (the world, written as for drv_c06 `R`, without the sha table: SHA-1 is computed)
       <errtexts: `-` or kind:hex joined by `,`>  (text of the client's ERROR line per failure kind; default: the kind's name)
       <schedule: `-` or moves joined by `,`: S<n> = one read of the bus, C<n> = one read of the client, n+1 bytes at most>
      -> the composition of the client model and the bus model (Auth/Handshake2.lean) after the schedule:
         <client events> | auth=.. disc=.. buffer=.. binary=.. guid=.. || sent=.. closed=.. auth=.. crashed=.. guid=.. bin=..
-        handed=.. state=.. rejects=.. cur=.. files=.. dirs=.. rnd=.. || c2s=<hex> s2c=<hex>
+        first=.. buf=.. handed=.. state=.. rejects=.. cur=.. files=<home:id.time.cookie/..> dirs=.. rnd=.. owned=<-|0|1> || c2s=<hex> s2c=<hex>
 -/
 open Txdbus.AuthClient
 
@@ -220,7 +220,7 @@ def srvStName : Txdbus.AuthServer.St → String
   | .waitingForAuth => "WaitingForAuth" | .waitingForData => "WaitingForData" | .waitingForBegin => "WaitingForBegin"
 
 def filesOut (w : RealWorld) : String :=
-  let fs := w.files.map fun (h, es) => hx h ++ ":" ++ "/".intercalate (es.map fun e => s!"{e.id}.{hx e.cookie}")
+  let fs := w.files.map fun (h, es) => hx h ++ ":" ++ "/".intercalate (es.map fun e => s!"{e.id}.{e.time}.{hx e.cookie}")
   let fs := fs.toArray.qsort (· < ·) |>.toList
   if fs.isEmpty then "-" else ",".intercalate fs
 
@@ -229,24 +229,31 @@ def dirsOut (w : RealWorld) : String :=
   let ds := ds.toArray.qsort (· < ·) |>.toList
   if ds.isEmpty then "-" else ",".intercalate ds
 
+/-- Did the bus create a keyring directory during this run, and does the client's ownership test pass on it? -/
+def createdOut (cfg : Txdbus.Handshake2.Cfg) (w : RealWorld) : String :=
+  let created := w.dirs.filter fun p => p.2 ≠ .absent && Txdbus.AuthServer.lookupDir cfg.w0 p.1 == .absent
+  if created.isEmpty then "-" else b01 (Txdbus.Handshake2.createdOwned cfg)
+
 def showBus (p : Txdbus.Handshake2.SProto) : String :=
   s!"sent={hxs p.sent} closed={b01 p.closed} auth={b01 p.authenticated} crashed={b01 p.crashed} " ++
   s!"guid={match p.guid with | some g => hx g | none => "none"} bin={hx p.binary} " ++
+  s!"first={b01 p.firstByte} buf={if p.authenticated then "-" else hx p.buffer} " ++
   s!"handed={hxs (p.log.map (·.line))} state={srvStName p.srv.state} rejects={p.srv.rejects} " ++
   s!"cur={match p.srv.cur with | some (n, _) => hx n | none => "none"} " ++
   s!"files={filesOut p.srv.world} dirs={dirsOut p.srv.world} rnd={p.srv.world.rndCalls}"
 
 def cmdHs2 (toks : List String) : String :=
   match toks with
-  | [unix, guid, hello, user, home, istat, root, euid, env, errs, sched] =>
-    match parseDir istat, parseWorld env, parseMoves sched, euid.toNat? with
-    | some (some ist), some w, some moves, some eu =>
+  | [unix, guid, hello, user, home, istat, beuid, euid, env, errs, sched] =>
+    match parseDir istat, parseWorld env, parseMoves sched, euid.toNat?, beuid.toNat? with
+    | some (some ist), some w, some moves, some eu, some beu =>
       let cfg : Txdbus.Handshake2.Cfg :=
         { unix := unix == "1", guid := unhx guid, hello := unhx hello, user := unhx user, clientHome := unhx home,
-          initStat := ist, root := root == "1", euid := eu, errText := parseErrTexts errs, w0 := w }
+          initStat := ist, busEuid := beu, euid := eu, errText := parseErrTexts errs, w0 := w }
       let st := Txdbus.Handshake2.run cfg (Txdbus.Handshake2.init cfg) moves
-      showProto st.c ++ " || " ++ showBus st.s ++ " || c2s=" ++ hx st.c2s ++ " s2c=" ++ hx st.s2c
-    | _, _, _, _ => "error bad-hs2-args"
+      showProto st.c ++ " || " ++ showBus st.s ++ " owned=" ++ createdOut cfg st.s.srv.world
+        ++ " || c2s=" ++ hx st.c2s ++ " s2c=" ++ hx st.s2c
+    | _, _, _, _, _ => "error bad-hs2-args"
   | _ => "error bad-hs2"
 
 end hs2
